@@ -1,6 +1,141 @@
-//! C01 harness (probe / smoke modes for now)
+//! C01 — evaluation matches the strict reference semantics.
+//!
+//! Generates MiniGluon programs (corpus, exhaustive small programs, type-directed random
+//! programs with interaction combinators), prints each in two concrete-syntax styles, runs
+//! the REAL implementation (`ThreadExt::run_expr`, prelude off) and writes
+//!   model_in.txt   one `(prog …)` s-expression per case (input of coq/extract/c01 driver)
+//!   impl_out.txt   one canonical outcome per case (`mg::run::Outcome::canonical`)
+//!   cases.txt      one JSON object per case {family, style, source, sexp}
+//!   stats.json     evaluations, distinct_nontrivial, histograms
+//! With `model=<path of the extracted model binary>` the harness also talks to the model
+//! directly, and shrinks every disagreement it sees (`shrunk.jsonl`).
+//!
+//! Other modes: `probe FILE` (programs separated by `%%` lines), `smoke N [SEED]`,
+//! `--replay FILE`.
 use gvh::mg;
+use gvh::mg::ast::*;
+use gvh::mg::generate::{EnumConfig, GenConfig};
 use gvh::mg::print::Style;
+use gvh::out::{fnv, Args, Hist};
+use gvh::rng::Rng;
+use std::io::{BufRead, BufReader, Write};
+use std::process::{Child, ChildStdin, ChildStdout, Command, Stdio};
+
+struct Model {
+    _child: Child,
+    stdin: ChildStdin,
+    stdout: BufReader<ChildStdout>,
+}
+
+impl Model {
+    fn start(path: &str) -> Model {
+        let mut child = Command::new(path).stdin(Stdio::piped()).stdout(Stdio::piped()).spawn().expect("start model");
+        let stdin = child.stdin.take().unwrap();
+        let stdout = BufReader::new(child.stdout.take().unwrap());
+        Model { _child: child, stdin, stdout }
+    }
+    fn eval(&mut self, sexp: &str) -> String {
+        writeln!(self.stdin, "{}", sexp).unwrap();
+        self.stdin.flush().unwrap();
+        let mut line = String::new();
+        self.stdout.read_line(&mut line).unwrap();
+        line.trim_end().to_string()
+    }
+}
+
+struct Impl {
+    vm: gluon::RootedThread,
+    runs: u64,
+}
+impl Impl {
+    fn new() -> Impl {
+        Impl { vm: mg::run::new_vm(), runs: 0 }
+    }
+    fn run(&mut self, p: &Program, src: &str) -> mg::run::Outcome {
+        self.runs += 1;
+        if self.runs % 1500 == 0 {
+            // the compiler database accumulates one file map per source
+            self.vm = mg::run::new_vm();
+        }
+        mg::run::run_program(&self.vm, p, src)
+    }
+}
+
+fn constructs(e: &Expr) -> Vec<&'static str> {
+    let mut v = vec![];
+    e.visit(&mut |x| v.push(x.kind()));
+    v.sort();
+    v.dedup();
+    v
+}
+
+/// the disagreement of one (program, style), if any: (expected = model, observed = impl)
+fn disagreement(imp: &mut Impl, model: &mut Model, p: &Program, st: &Style) -> Option<(String, String)> {
+    let src = mg::print::to_gluon(p, st);
+    let o = imp.run(p, &src);
+    if matches!(o.class(), "typecheck" | "parse") {
+        return None;
+    }
+    let oc = o.canonical();
+    if oc.contains("shape-mismatch") {
+        return None; // the candidate changed the program's type
+    }
+    let m = model.eval(&mg::sexp::program_to_sexp(p));
+    if m == "(fuel)" || m.starts_with("(stuck") || m.starts_with("(err malformed") {
+        return None;
+    }
+    if m != oc { Some((m, oc)) } else { None }
+}
+
+fn shrink(imp: &mut Impl, model: &mut Model, p: &Program, st: &Style) -> (Program, u32) {
+    let mut cur = p.clone();
+    let mut steps = 0u32;
+    let mut attempts = 0u32;
+    'outer: loop {
+        let mut cands = mg::generate::shrink_candidates(&cur.expr);
+        cands.sort_by_key(|c| c.size());
+        let cur_size = cur.expr.size();
+        for c in cands {
+            if c.size() >= cur_size {
+                break;
+            }
+            attempts += 1;
+            if attempts > 4000 {
+                break 'outer;
+            }
+            let cand = Program { types: cur.types.clone(), expr: c, ty: cur.ty.clone() };
+            if disagreement(imp, model, &cand, st).is_some() {
+                cur = cand;
+                steps += 1;
+                continue 'outer;
+            }
+        }
+        break;
+    }
+    (cur, steps)
+}
+
+fn classify_pair(expected: &str, observed: &str) -> &'static str {
+    // same value / error, logs differ?
+    fn split(s: &str) -> (String, String) {
+        match s.rfind("(log") {
+            Some(i) => (s[..i].to_string(), s[i..].to_string()),
+            None => (s.to_string(), String::new()),
+        }
+    }
+    let (ev, el) = split(expected);
+    let (ov, ol) = split(observed);
+    if observed.contains("hostpanic") {
+        "host-panic"
+    } else if ev == ov && el != ol {
+        "effect-order"
+    } else if observed.starts_with("(err other") {
+        "impl-error"
+    } else {
+        "outcome"
+    }
+}
+
 fn main() {
     let a: Vec<String> = std::env::args().collect();
     if a.len() >= 3 && a[1] == "probe" {
@@ -12,36 +147,171 @@ fn main() {
         }
         return;
     }
-    if a.len() >= 3 && a[1] == "smoke" {
-        let n: u64 = a[2].parse().unwrap();
-        let seed: u64 = a.get(3).and_then(|s| s.parse().ok()).unwrap_or(1);
-        let mut rng = gvh::rng::Rng::new(seed);
-        let mut cfg = mg::generate::GenConfig::default();
-        cfg.features.multi_record_alts = false;
-        let mut vm = mg::run::new_vm();
-        let mut hist = std::collections::BTreeMap::new();
-        let mut shown = 0;
-        let t0 = std::time::Instant::now();
-        for i in 0..n {
-            if i % 1000 == 999 { vm = mg::run::new_vm(); }
-            let p = mg::generate::gen_program(&mut rng, &cfg);
-            let mut outs = vec![];
-            for st in Style::all() {
-                let src = mg::print::to_gluon(&p, &st);
-                let o = mg::run::run_program(&vm, &p, &src);
-                *hist.entry(format!("{}:{}", st.name(), o.class())).or_insert(0u64) += 1;
-                let bad = matches!(o.class(), "parse" | "typecheck" | "hostpanic" | "other") || o.canonical().contains("shape-mismatch");
-                if bad && shown < 6 {
-                    shown += 1;
-                    println!("=== case {} style {}\n{}\n{}\n{}", i, st.name(), src, o.canonical().chars().take(1500).collect::<String>(), mg::sexp::program_to_sexp(&p));
-                }
-                outs.push(o.canonical());
-            }
-            if outs[0] != outs[1] && shown < 6 {
-                shown += 1;
-                println!("=== case {} styles disagree\n{}\n{}\n{}", i, mg::print::to_gluon(&p, &Style::layout()), outs[0], outs[1]);
+    let args = Args::parse();
+    let mut imp = Impl::new();
+    let mut model = args.extra.get("model").map(|p| Model::start(p));
+
+    if let Some(path) = &args.replay {
+        let v: serde_json::Value = serde_json::from_str(&std::fs::read_to_string(path).expect("replay file")).expect("json");
+        let sexp = v["case"]["sexp"].as_str().expect("case.sexp");
+        let p = mg::sexp::parse_program(sexp).expect("parse case.sexp");
+        for st in Style::all() {
+            let src = mg::print::to_gluon(&p, &st);
+            println!("--- style {}\n{}", st.name(), src);
+            println!("impl: {}", imp.run(&p, &src).canonical());
+        }
+        if let Some(m) = model.as_mut() {
+            println!("model: {}", m.eval(sexp));
+        }
+        println!("expected(model at report time): {}", v["expected"].as_str().unwrap_or("?"));
+        return;
+    }
+
+    let thorough = args.thorough();
+    let mut cfg = GenConfig::default();
+    // feature switches for experiments: features=-multi_record_alts,-update_reorder
+    if let Some(f) = args.extra.get("features") {
+        for t in f.split(',') {
+            match t {
+                "-multi_record_alts" => cfg.features.multi_record_alts = false,
+                "-update_reorder" => cfg.features.update_reorder = false,
+                "-arrays" => cfg.features.arrays = false,
+                "+floats" => cfg.features.floats = true,
+                _ => {}
             }
         }
-        println!("{:?} in {:?}", hist, t0.elapsed());
     }
+    let n_random: u64 = args.extra.get("random").and_then(|s| s.parse().ok()).unwrap_or(if thorough { 50000 } else { 3000 });
+    let enum_size: usize = args.extra.get("enum_size").and_then(|s| s.parse().ok()).unwrap_or(if thorough { 6 } else { 5 });
+
+    let mut model_in = args.file("model_in.txt");
+    let mut impl_out = args.file("impl_out.txt");
+    let mut cases = args.file("cases.txt");
+    let mut shrunk = args.file("shrunk.jsonl");
+    let mut hist = Hist::default();
+    let mut distinct = std::collections::HashSet::new();
+    let mut n_cases = 0u64;
+    let mut n_programs = 0u64;
+    let mut rejected = 0u64;
+    let mut n_shrunk = 0u32;
+    let styles = Style::all();
+
+    let mut emit = |family: &str, p: &Program, used: &[&'static str], imp: &mut Impl, model: &mut Option<Model>, hist: &mut Hist| {
+        let sexp = mg::sexp::program_to_sexp(p);
+        let mut any = false;
+        for st in &styles {
+            let src = mg::print::to_gluon(p, st);
+            let o = imp.run(p, &src);
+            if o.class() == "typecheck" {
+                // not a well-typed program as far as gluon is concerned: outside C01's domain
+                rejected += 1;
+                hist.add("rejected-by-typechecker");
+                continue;
+            }
+            any = true;
+            let oc = o.canonical();
+            writeln!(model_in, "{}", sexp).unwrap();
+            writeln!(impl_out, "{}", oc).unwrap();
+            writeln!(cases, "{}", serde_json::json!({"family": family, "style": st.name(), "source": src, "sexp": sexp})).unwrap();
+            n_cases += 1;
+            hist.add(&format!("family:{}", family));
+            hist.add(&format!("style:{}", st.name()));
+            hist.add(&format!("impl:{}", o.class()));
+            if let Some(m) = model.as_mut() {
+                let mo = m.eval(&sexp);
+                if mo != oc && mo != "(fuel)" && n_shrunk < 12 {
+                    n_shrunk += 1;
+                    let (small, steps) = shrink(imp, m, p, st);
+                    let (e2, o2) = disagreement(imp, m, &small, st).unwrap_or((mo.clone(), oc.clone()));
+                    let line = serde_json::json!({
+                        "index": n_cases - 1,
+                        "style": st.name(),
+                        "kind": classify_pair(&e2, &o2),
+                        "constructs": constructs(&small.expr),
+                        "source": mg::print::to_gluon(&small, st),
+                        "sexp": mg::sexp::program_to_sexp(&small),
+                        "expected": e2,
+                        "observed": o2,
+                        "shrink_steps": steps,
+                        "original_size": p.expr.size(),
+                        "size": small.expr.size(),
+                    });
+                    writeln!(shrunk, "{}", line).unwrap();
+                }
+            }
+        }
+        if any {
+            n_programs += 1;
+            let size = p.expr.size();
+            hist.add(&format!("size:{}", match size { 0..=3 => "1-3", 4..=7 => "4-7", 8..=15 => "8-15", 16..=31 => "16-31", 32..=63 => "32-63", _ => "64+" }));
+            for k in constructs(&p.expr) {
+                hist.add(&format!("construct:{}", k));
+            }
+            for u in used {
+                if u.starts_with("comb:") {
+                    hist.add(u);
+                }
+            }
+            if p.nontrivial() {
+                distinct.insert(fnv(sexp.as_bytes()));
+            }
+        }
+    };
+
+    // 1. corpus
+    let corpus_dir = std::path::Path::new("/verif/corpus/C01");
+    let mut files: Vec<_> = std::fs::read_dir(corpus_dir).map(|d| d.filter_map(|e| e.ok()).map(|e| e.path()).collect()).unwrap_or_default();
+    files.sort();
+    for f in files {
+        if f.extension().map_or(false, |e| e == "sexp") {
+            for line in std::fs::read_to_string(&f).unwrap_or_default().lines() {
+                let line = line.trim();
+                if line.is_empty() || line.starts_with(';') {
+                    continue;
+                }
+                match mg::sexp::parse_program(line) {
+                    Ok(p) => emit("corpus", &p, &[], &mut imp, &mut model, &mut hist),
+                    Err(e) => eprintln!("corpus {}: {}", f.display(), e),
+                }
+            }
+        }
+    }
+
+    // 2. exhaustive small programs
+    let all = mg::generate::enumerate(&EnumConfig { max_size: enum_size, eff: true });
+    let n_enum = all.len();
+    for p in &all {
+        emit("exhaustive", p, &[], &mut imp, &mut model, &mut hist);
+    }
+    drop(all);
+
+    // 3. random programs (depth and size vary)
+    let mut rng = Rng::new(args.seed);
+    for i in 0..n_random {
+        let mut c = cfg.clone();
+        c.max_depth = 2 + (i % 5) as u32;
+        c.max_size = [12, 25, 40, 60, 90][(i % 5) as usize];
+        let (p, used) = mg::generate::gen_program_traced(&mut rng, &c);
+        emit("random", &p, &used, &mut imp, &mut model, &mut hist);
+    }
+
+    drop(emit);
+    model_in.flush().unwrap();
+    impl_out.flush().unwrap();
+    cases.flush().unwrap();
+    shrunk.flush().unwrap();
+    gvh::out::write_json(
+        &args.out.join("stats.json"),
+        &serde_json::json!({
+            "evaluations": n_cases,
+            "programs": n_programs,
+            "distinct_nontrivial": distinct.len(),
+            "rule": "a case is (program, printer style); distinct non-trivial = distinct programs (by s-expression) with more than one AST node and at least one binder (lambda, let, rec or a binding pattern)",
+            "rejected_by_typechecker": rejected,
+            "exhaustive_max_size": enum_size,
+            "exhaustive_programs": n_enum,
+            "random_programs": n_random,
+            "hist": hist.to_json(),
+        }),
+    );
 }
